@@ -84,6 +84,11 @@ def cases(tier, seed):
     for (m, n, cnd) in ((40, 30, 1000.0), (48, 40, 300.0)):
         for tol in (1e-3, 1e-6):
             out.append({"key": f"cgne-large/{m}x{n}/c={cnd:g}/tol={tol:g}", "ep": "cgne", "m": m, "n": n, "cond": cnd, "tol": tol, "pr": 0, "large": True, "S1": True})
+    # the flag must be sound on every call of a reused object, too (a converging call first, then a call that
+    # exhausts a tight budget, then a converging one again)
+    for cls in ("cgne", "col", "hyb"):
+        for budget in (2, 4, 12):
+            out.append({"key": f"reuse/{cls}/budget={budget}", "ep": "reuse", "cls": cls, "budget": budget, "m": 0, "n": 0, "cond": 0, "tol": 1e-8})
     for c in out:
         c["S"] = 3 if tier == "quick" else 12
         c["MAXIT"] = 150 if tier == "quick" else 600
@@ -119,7 +124,52 @@ def init_worker():
     sv.RandomizedSketchProjectPseudoinverse._invert_quat_small = counted
 
 
+def run_reuse(case, seed):
+    lib = load()
+    sv = lib.solver
+    cls, budget, tol = case["cls"], case["budget"], case["tol"]
+    fill = G.Fill(seed, stream=hash_tag(case["key"]))
+    probs = [make_A(6, 2, 2.0, fill), make_A(16, 12, 50.0, fill), make_A(5, 3, 2.0, fill), make_A(14, 10, 100.0, fill), make_A(4, 1, 1.0, fill)]
+    fails, states = [], []
+    nconv = evals = 0
+    for sd in range(2):
+        if cls == "cgne":
+            solver = sv.CGNEQSolver(tol=tol, max_iter=budget, preconditioner_rank=0, seed=sd)
+            fn = solver.compute
+        elif cls == "col":
+            solver = sv.RandomizedSketchProjectPseudoinverse(block_size=3, max_iter=budget * 4, tol=tol, test_sketch_size=8, seed=sd)
+            fn = solver.compute_column_variant
+        else:
+            solver = sv.HybridRSPNewtonSchulz(r=2, p=2, T=3, tol=tol, max_iter=budget * 2, seed=sd)
+            fn = solver.compute
+        for ci, (A, vals) in enumerate(probs):
+            tags = {"ep": "reuse", "cls": cls, "budget": budget, "seed": sd, "call": ci}
+            n = A.shape[1]
+            ok, res = call(fn, G.to_quat(A))
+            evals += 1
+            if not ok:
+                fails.append(fail("raised", f"call {ci}: {type(res).__name__}: {res}", **tags))
+                continue
+            Xq, info = res
+            X = G.from_quat(Xq)
+            hist = list(info.get("residual_norms", []))
+            conv = bool(info.get("converged"))
+            states.append(digest(case["key"], sd, ci, len(hist), conv))
+            if conv != bool(hist and hist[-1] <= tol):
+                fails.append(fail("converged<=>last_residual<=tol", f"call {ci} on a reused {type(solver).__name__}: converged={conv} history[-1]={hist[-1] if hist else None} tol={tol}", **tags))
+            if conv:
+                nconv += 1
+                eN = O.fro(O.qmatmul(X, A) - O.qeye(n)) / math.sqrt(n)
+                # generous: 1e3*tol (exact for CGNE, which reports the true residual; proxy-based for the randomized ones)
+                if not O.is_finite(X) or eN > 1e3 * tol:
+                    fails.append(fail("converged=>true_residual_bounded", f"call {ci} on a reused {type(solver).__name__}: converged=True but ||XA-I||/sqrt(n) = {eN:.3e} (tol={tol})", **tags))
+    return {"key": case["key"], "fails": fails[:24], "evals": evals, "nontrivial_n": nconv, "states": states, "transitions": evals, "traces": evals,
+            "digest": case["key"], "path": f"reuse-{cls},converged={nconv}/{evals}", "obs": [nconv, [f["clause"] for f in fails]], "ratio_max": None}
+
+
 def run_case(case, seed):
+    if case["ep"] == "reuse":
+        return run_reuse(case, seed)
     lib = load()
     sv = lib.solver
     fb0 = _FALLBACK["n"]
